@@ -1,7 +1,7 @@
 /-
 C10 helper lemmas, part 3: every event of a schedule preserves the invariant as long as it meets no
-hazard (Async/Spec.lean), hence every hazard-free schedule does (`inv_run`); the patched variant
-`Cfg.fixed` meets no hazard at all (`hazardFree_fixed`).
+hazard (Async/Spec.lean), hence every hazard-free schedule does (`inv_run`); the code in /repo
+`Cfg.repo` meets no hazard at all (`hazardFree_repo`).
 
 An assignment is decomposed into "supersede whatever owns the parameter" (`clearP`: the registered
 task is cancelled, the link and the ghost are cleared) followed by "store the plain value" or
@@ -345,18 +345,18 @@ theorem inv_runFrom (c : Cfg) : âˆ€ (evs : List Event) (s : St), Inv c s none â†
 theorem inv_run (c : Cfg) (evs : List Event) (hz : HazardFree c evs) : Inv c (run c evs) none :=
   inv_runFrom c evs _ (inv_init c 0) hz
 
-/-- the patched variant meets no hazard, whatever the schedule -/
-theorem hazard_fixed (s : St) (ev : Event) : hazard Cfg.fixed s ev = false := by
+/-- the code in /repo meets no hazard, whatever the schedule -/
+theorem hazard_repo (s : St) (ev : Event) : hazard Cfg.repo s ev = false := by
   cases ev with
-  | assign p src => cases src <;> simp [hazard, hazA, hazB, hazD, Cfg.fixed]
+  | assign p src => cases src <;> simp [hazard, hazA, hazB, hazD, Cfg.repo]
   | _ => simp [hazard, hazA, hazB, hazD]
 
-theorem hazardFree_fixed (evs : List Event) : HazardFree Cfg.fixed evs := by
+theorem hazardFree_repo (evs : List Event) : HazardFree Cfg.repo evs := by
   unfold HazardFree
   generalize St.init 0 = s
   induction evs generalizing s with
   | nil => rfl
-  | cons ev rest ih => simp [hazardFreeFrom, hazard_fixed, ih]
+  | cons ev rest ih => simp [hazardFreeFrom, hazard_repo, ih]
 
 
 end ParamVerif.Async
